@@ -109,7 +109,13 @@ theorem selectOne_eq (O : Oracles) (q : SelectStmt) (seen : List (List Value)) (
   | some f =>
     simp only []
     cases eval O env f with
-    | ok v => exact core v.truthy
+    | ok v =>
+      simp only [bind, Outcome.bind]
+      cases condHolds v with
+      | ok b => exact core b
+      | error k => rfl
+      | panic s => rfl
+      | oracleMissing w => rfl
     | error k => rfl
     | panic s => rfl
     | oracleMissing w => rfl
